@@ -294,14 +294,24 @@ package protocol
 //@   loop 0:
 //@     invariant kv != nil && len(cookies) >= 1
 
+// ckSecSeen: a piece spelled "secure" was seen - the only way the parsed cookie becomes Secure (the parser assigns the
+// fields itself; the setters have side effects - SetSameSite(None) switches Secure on - and are not used here).
+//@ ghost var ckSecSeen bool
 //@ func Cookie.ParseBytes(c, src) err
 //@   props C03, C17
 //@   witness src = "a=b; SameSite="
-//@   modifies *
+//@   modifies *, ckSecSeen
 //@   assert @C17 before append: sameSlice(arg1, kv.key) || sameSlice(arg1, kv.value)
 //@   forbid @C17 normalizePath
 //@   forbid @C17 decodeArgAppend
 //@   forbid @C17 decodeArgAppendNoPlus
+//@   forbid @C17 Cookie.SetSameSite
+//@   forbid @C17 Cookie.SetSecure
+//@   ghostset-at-entry ckSecSeen = false
+//@   ghostset after CaseInsensitiveCompare: ckSecSeen = ckSecSeen || (result && sameSlice(arg0, bytestr.StrCookieSecure))
+//@   top-ensures @C17 c.secure ==> ckSecSeen
+//@   loop 0:
+//@     invariant @C17 c.secure ==> ckSecSeen
 
 // C17 (cookie serialiser): an attribute is written as "; " name "=" value, byte for byte.
 //@ func appendCookiePart(dst, key, value) r
